@@ -645,3 +645,78 @@ def trailing_empty_field_family(report, prop="C08", label="trailing-empty-field"
     report.obligation("corr:" + label, "correspondence", ok, f"{len(cases)} driven histories, every response compared with the model's")
     report.obligation("mon:" + label, "monitor", mon, "bytes, completions, verdicts on the server's packets and the final state are those of the same history with an ample buffer")
     return ok and mon
+
+
+def session_present_family(report, prop="C11", label="session-present-vs-clean-start"):
+    """a CONNACK with Session Present = 1 answering a CONNECT with Clean Start / CleanSession = 1 is a protocol violation by
+    the server ([MQTT-3.2.2-1/-2]; an MQTT 5 client MUST close, [MQTT-3.2.2-4]): it must fail the connection, not be taken for a
+    resumed session.  Answering a CONNECT that asked to resume, the same CONNACK is fine.  The clean flag is read off the
+    CONNECT bytes the engine wrote."""
+    from gv import harness_batch, resp_fields, unhex
+    scripts = []
+    for v in ("5", "311"):
+        sp1 = "x20020100" if v == "311" else "x2003010000"
+        sp0 = "x20020000" if v == "311" else "x2003000000"
+        for rejoin in ("never", "post", "always"):
+            for cid in ("cid=x63", ""):
+                base = [f"eng.new v={v} policy=all drain=none pingto=100000 resolver=none rmax=2 | ka=0 rejoin={rejoin} {cid}".rstrip(), "eng.open t=0 deadline=30000", "eng.svc t=0 cap=4096 prefill=0", "eng.wc t=0"]
+                # first connection answered with Session Present = 1
+                scripts.append(base + [f"eng.data t=1 b={sp1}", "eng.snap"])
+                # first connection fine, second one answered with Session Present = 1
+                scripts.append(base + [f"eng.data t=1 b={sp0}", "eng.close t=2", "eng.open t=3 deadline=60000", "eng.svc t=3 cap=4096 prefill=0", "eng.wc t=3", f"eng.data t=4 b={sp1}", "eng.snap"])
+    reqs, starts = [], []
+    for sc in scripts:
+        starts.append(len(reqs))
+        reqs.append("session.reset")
+        reqs += sc
+    impl = harness_batch(reqs)
+    model = driver_batch(reqs)
+    ok, mon, bad, cbad, judged = True, True, 0, 0, {"refuse": 0, "accept": 0}
+    for k, st in enumerate(starts):
+        end = starts[k + 1] if k + 1 < len(starts) else len(reqs)
+        report.case("|".join(reqs[st + 1:end]))
+        report.traces_validated += 1
+        for i in range(st, end):
+            if canon(impl[i]) != canon(model[i]):
+                if cbad < 4:
+                    report.add_finding(Finding(prop, "corr:" + label, {"clause": "model-vs-impl", "verb": reqs[i].split(" ")[0]},
+                                               "session-present scenario: implementation and model disagree", reqs[st + 1:i + 1] + ["# impl:  " + impl[i][:300], "# model: " + model[i][:300]], has_input=False))
+                ok = False
+                cbad += 1
+                break
+        # the last CONNECT written and the verdict on the last CONNACK
+        connect = None
+        for i in range(st, end):
+            f, _ = resp_fields(impl[i])
+            b = f.get("bytes", "x")
+            if reqs[i].startswith("eng.svc") and b.startswith("x10"):
+                connect = unhex(b)
+        last_data = max(i for i in range(st, end) if reqs[i].startswith("eng.data"))
+        verdict, _ = resp_fields(impl[last_data])
+        if connect is None:
+            continue
+        # fixed header (1 + 1 byte: these CONNECTs are short), protocol name (2 + 4), level (1), then the connect flags
+        clean = bool(connect[2 + 6 + 1] & 0x02)
+        refused = verdict.get("res", "").startswith("err")
+        judged["refuse" if clean else "accept"] += 1
+        if clean and not refused:
+            mon = False
+            if bad < 10:
+                report.add_finding(Finding(prop, "mon:" + label, {"clause": "violation-accepted", "what": "session-present-after-clean-start"},
+                                           "the CONNECT on the wire had Clean Start / CleanSession = 1, the server answered Session Present = 1 - a protocol violation - and the engine accepted it as a resumed session",
+                                           reqs[st + 1:end] + ["# CONNECT: " + connect.hex(), "# impl: " + impl[last_data][:200]]))
+            bad += 1
+        if not clean and refused:
+            mon = False
+            if bad < 10:
+                report.add_finding(Finding(prop, "mon:" + label, {"clause": "conformant-server-refused", "what": "session-present-after-resume-request"},
+                                           "the CONNECT asked to resume the session, the server answered Session Present = 1 - legal - and the engine failed the connection",
+                                           reqs[st + 1:end] + ["# CONNECT: " + connect.hex(), "# impl: " + impl[last_data][:200]]))
+            bad += 1
+    report.count(label + ".scenarios", len(scripts))
+    report.count(label + ".must-refuse", judged["refuse"])
+    report.count(label + ".must-accept", judged["accept"])
+    report.obligation("corr:" + label, "correspondence", ok, f"{len(scripts)} scripted connections, every response compared")
+    report.obligation("mon:" + label, "monitor", mon and judged["refuse"] > 0 and judged["accept"] > 0,
+                      f"Session Present = 1 is refused after Clean Start = 1 ({judged['refuse']} connections) and accepted after a request to resume ({judged['accept']})")
+    return ok and mon
